@@ -1,3 +1,238 @@
-import Earverif.Model.TrackSpec
+/-
+C20 — Track specifications yield exactly the audio they describe.
+
+Property theorems about the model `Earverif/Model/TrackSpec.lean` (tied to
+`ear/core/track_processor.py`, `ear/core/delay.py` by `harness/c20.py`).
+Lemmas are in `Earverif/Proofs/C20.lean`.
+
+Everything is stated for an arbitrary sample/gain type `α` with `+`, `*`, `0`, `1` satisfying
+`x + 0 = x`, `0 + x = x`, `x * 1 = x`, `0 * x = 0` (class `Sample`; instances `Rat`, `Int`), i.e. in
+exact arithmetic. The hypotheses `Spec.wf fs nch s` (direct indices name a column numpy accepts, delays
+round to `≥ 0` samples) describe the specs the real code does not reject; see the examples at the end
+for what happens outside.
+-/
+import Earverif.Proofs.C20
+
 namespace Earverif.TrackSpec
+
+variable {α : Type} [Sample α]
+
+/-! ## `delay.Delay` -/
+
+/- `delay_process_eq` (in Proofs/C20.lean, audited with the theorems below): one `Delay.process` call
+returns `((mem ++ inp).take inp.length, (mem ++ inp).drop inp.length)` — the output is the first `n`
+samples of `delaymem ++ input`, the new `delaymem` is the rest; for every memory length and block
+length (block shorter than, equal to, longer than the delay; empty block; zero delay). -/
+
+/-- **delay_eq.** A `Delay(1, d)` object fed any partition `parts` of an input (empty blocks included)
+outputs, block by block, "prepend `d` zeros, drop the last `d`" of the concatenated input; and its
+memory ends as the last `d` samples of `zeros d ++ input`. -/
+theorem delay_eq (d : Nat) (parts : List (List α)) :
+    (delayRun (zeros d) parts).1 = chunks (parts.map List.length) (delayBy d parts.flatten) ∧
+    (delayRun (zeros d) parts).1.flatten = delayBy d parts.flatten ∧
+    (delayRun (zeros d) parts).2 = (zeros d ++ parts.flatten).drop parts.flatten.length := by
+  obtain ⟨h1, h2⟩ := delayRun_eq parts (zeros d : List α)
+  refine ⟨h1, ?_, h2⟩
+  rw [h1]
+  exact chunks_flatten parts _ (by simp)
+
+/-! ## ms → samples -/
+
+/-- **delay_rounding.** `int(ceil(fs·ms/1000 − 0.5))` is the sample nearest to `x = fs·ms/1000`, and an
+exact half `x = m + 1/2` goes to the smaller neighbour `m`: `k − 1/2 < x ≤ k + 1/2`. -/
+theorem delay_rounding (fs : Int) (ms : Rat) :
+    let x : Rat := (fs : Rat) * ms / 1000
+    let k : Int := delaySamples fs ms
+    (k : Rat) - 1 / 2 < x ∧ x ≤ (k : Rat) + 1 / 2 := by
+  intro x k
+  have h1 : x - 1 / 2 ≤ ((x - 1 / 2).ceil : Int) := Rat.le_ceil
+  have h2 : (((x - 1 / 2).ceil : Int) : Rat) < x - 1 / 2 + 1 := Rat.ceil_lt
+  have hk : k = (x - 1 / 2).ceil := rfl
+  rw [hk]
+  constructor <;> grind
+
+/-- The integer with `j − 1/2 < x ≤ j + 1/2` is unique, so `delay_rounding` determines the result
+(in particular it is *not* Python's `round`, which sends 1.5 to 2: see the examples). -/
+theorem delay_rounding_unique (fs : Int) (ms : Rat) (j : Int)
+    (h1 : (j : Rat) - 1 / 2 < (fs : Rat) * ms / 1000) (h2 : (fs : Rat) * ms / 1000 ≤ (j : Rat) + 1 / 2) :
+    j = delaySamples fs ms := by
+  have hk : delaySamples fs ms = ((fs : Rat) * ms / 1000 - 1 / 2).ceil := rfl
+  generalize (fs : Rat) * ms / 1000 = x at *
+  have a : (x - 1 / 2).ceil ≤ j := Rat.ceil_le_iff.mpr (by grind)
+  have b : j - 1 < (x - 1 / 2).ceil := Rat.lt_ceil_iff.mpr (by
+    have : ((j - 1 : Int) : Rat) = (j : Rat) - 1 := by simp [Rat.intCast_sub]
+    rw [this]; grind)
+  omega
+
+/-! ## simplification -/
+
+variable [DecidableEq α]
+
+/-- **simplify_preserves_meaning.** `_simplify_track_spec` never changes what a spec means, for every
+spec (also outside `wf`), sample rate and input. -/
+theorem simplify_preserves_meaning (fs : Int) (nch : Nat) (s : Spec α) (x : List (List α)) :
+    meaning fs nch (simplify s) x = meaning fs nch s x :=
+  simplify_meaning fs nch s x
+
+/-- The simplified spec has no empty mix, so `MixProcessor`'s assertion never fires in
+`TrackProcessor(spec)`; and simplification does not introduce a bad index or a negative delay. -/
+theorem simplify_buildable (fs : Int) (nch : Nat) (s : Spec α) :
+    (simplify s).buildable = true ∧ (s.wf fs nch = true → (simplify s).wf fs nch = true) :=
+  ⟨simplify_buildable' s, simplify_wf fs nch s⟩
+
+/-! ## processors -/
+
+omit [DecidableEq α] in
+/-- The processors built by `_track_spec_processor` for *any* spec without an empty mix (simplified
+or not), fed any partition of the input, output block by block the literal meaning of the spec on
+the whole input. -/
+theorem built_processor_eq_meaning (fs : Int) (nch : Nat) (s : Spec α)
+    (hb : s.buildable = true) (hwf : s.wf fs nch = true) (parts : List (List (List α))) :
+    runBuilt fs nch s parts =
+      .ok (chunks (parts.map List.length) (meaning fs nch s parts.flatten)) := by
+  have := run_after fs nch s hwf parts false [] (fun _ => rfl)
+  simp only [runBuilt, build_eq_after fs nch s hb, this, List.nil_append, List.length_nil, List.drop_zero]
+
+/-- **processor_eq_meaning (C20).** `p = TrackProcessor(spec)` followed by `p.process(fs, b)` for the
+blocks `b` of *any* partition `parts` of the input (empty blocks allowed) never raises and returns,
+block by block, the literal meaning of `spec` on the concatenated input: the outputs have the lengths of
+the blocks and their concatenation is `meaning spec parts.flatten`. -/
+theorem processor_eq_meaning (fs : Int) (nch : Nat) (s : Spec α) (hwf : s.wf fs nch = true)
+    (parts : List (List (List α))) :
+    runSpec fs nch s parts = .ok (chunks (parts.map List.length) (meaning fs nch s parts.flatten)) ∧
+    (chunks (parts.map List.length) (meaning fs nch s parts.flatten)).flatten =
+      meaning fs nch s parts.flatten := by
+  constructor
+  · rw [runSpec, built_processor_eq_meaning fs nch (simplify s) (simplify_buildable' s)
+      (simplify_wf fs nch s hwf) parts, simplify_meaning]
+  · exact chunks_flatten parts _ (meaning_length fs nch s _)
+
+/-- Block-partition independence, as a corollary: two partitions of the same input give the same
+concatenated output. -/
+theorem partition_independent (fs : Int) (nch : Nat) (s : Spec α) (hwf : s.wf fs nch = true)
+    (p q : List (List (List α))) (h : p.flatten = q.flatten) :
+    ∃ a b, runSpec fs nch s p = .ok a ∧ runSpec fs nch s q = .ok b ∧ a.flatten = b.flatten := by
+  refine ⟨_, _, (processor_eq_meaning fs nch s hwf p).1, (processor_eq_meaning fs nch s hwf q).1, ?_⟩
+  rw [(processor_eq_meaning fs nch s hwf p).2, (processor_eq_meaning fs nch s hwf q).2, h]
+
+omit [DecidableEq α] in
+/-- The driver's entry point (a sample rate per call) with one rate for all calls is `run`. -/
+theorem runR_const (fs : Int) (nch : Nat) (parts : List (List (List α))) : ∀ p : Proc α,
+    runR nch p (parts.map fun b => (fs, b)) = run fs nch p parts := by
+  induction parts with
+  | nil => intro p; rfl
+  | cons b rest ih =>
+    intro p
+    simp only [List.map_cons, runR, run]
+    cases step fs nch p b with
+    | error e => rfl
+    | ok r => simp only [ih]
+
+/-! ## `MultiTrackProcessor` -/
+
+/-- **multi_processor_eq_meaning.** `MultiTrackProcessor(specs)` with at least one spec, fed any partition
+of the input, returns for every block the `(n, m)` stack of the corresponding pieces of the `m` specs'
+literal meanings on the whole input (every spec has its own processor state). -/
+theorem multi_processor_eq_meaning (fs : Int) (nch : Nat) (ss : List (Spec α)) (hne : ss ≠ [])
+    (hwf : Spec.wfList fs nch ss = true) (parts : List (List (List α))) :
+    runMultiSpec fs nch ss parts =
+      .ok (stackRuns (parts.map List.length) (ss.map fun s =>
+        chunks (parts.map List.length) (meaning fs nch s parts.flatten))) := by
+  have hne' : simplifyList ss ≠ [] := by
+    rw [simplifyList_eq_map]; simpa using hne
+  have := runMulti_after fs nch (simplifyList ss) (simplifyList_wf fs nch ss hwf) hne' parts false []
+    (fun _ => rfl)
+  simp only [runMultiSpec, buildMulti_eq fs nch ss, this, List.nil_append, List.length_nil, List.drop_zero]
+  congr 2
+  rw [simplifyList_eq_map, List.map_map]
+  apply List.map_congr_left
+  intro s _
+  simp only [Function.comp, simplify_meaning]
+
+/-- With no track specs, `np.stack([])` raises `ValueError` on the first `process` call. -/
+theorem multi_empty_raises (fs : Int) (nch : Nat) (b : List (List α)) (rest : List (List (List α))) :
+    runMultiSpec fs nch ([] : List (Spec α)) (b :: rest) = .error .emptyStack := rfl
+
+/-! ## matrix packs -/
+
+omit [DecidableEq α] in
+theorem meaningList_packCoeffs (fs : Int) (nch : Nat) (x : List (List α)) :
+    ∀ cs : List (MChan α × Option α × Option Rat),
+    meaningList fs nch (packCoeffs cs) x =
+      cs.map fun c => delayOpt fs c.2.2 (scaleOpt c.2.1 (meaning fs nch (packSpec c.1) x))
+  | [] => rfl
+  | (c, g, d) :: cs => by
+    simp only [packCoeffs, meaningList, List.map_cons, meaningList_packCoeffs fs nch x cs, meaning, delayOpt]
+
+omit [DecidableEq α] in
+/-- **matrix_pack_spec_meaning.** The nested spec `GainTrackSpec(MixTrackSpec([MatrixCoefficientTrackSpec(
+get_track_spec(c.inputChannelFormat), c) for c in matrix]), block_format.gain)` built by
+`MatrixAllocationPack.output_channel_allocation` for a matrix channel means: the sum over its
+coefficients of the (recursively obtained) input channel signal scaled by the coefficient gain and
+delayed by the coefficient delay, all scaled by the block format gain. -/
+theorem matrix_pack_spec_meaning (fs : Int) (nch : Nat) (cs : List (MChan α × Option α × Option Rat)) (g : α)
+    (x : List (List α)) :
+    meaning fs nch (packSpec (.matrixCh cs g)) x =
+      (vsum x.length (cs.map fun c =>
+        delayOpt fs c.2.2 (scaleOpt c.2.1 (meaning fs nch (packSpec c.1) x)))).map (· * g) := by
+  simp only [packSpec, meaning, meaningList_packCoeffs]
+
+/-! ## Non-vacuity and the cases outside the quantifier (all evaluated by the kernel) -/
+
+section Examples
+open Spec
+
+/-- a spec with every node type, a unit gain, a single-input mix, a silent leaf, a sub-sample and a
+several-sample delay -/
+def exSpec : Spec Rat :=
+  .gain (.mix [.matrix (.mix [.direct 0]) (some (1/2)) (some (1/32)),
+               .matrix (.gain (.direct 1) 1) none (some (1/128)),
+               .silent,
+               .matrix (.direct 2) (some 2) (some (1/16))]) 3
+
+/-- `r` is `.ok v` -/
+def isOk {β : Type} [BEq β] (r : Except Err β) (v : β) : Bool :=
+  match r with
+  | .ok o => o == v
+  | .error _ => false
+/-- `r` raises `e` -/
+def isErr {β : Type} (r : Except Err β) (e : Err) : Bool :=
+  match r with
+  | .ok _ => false
+  | .error e' => e' == e
+
+example : exSpec.wf 48000 3 = true := by decide +kernel
+/-- 1.5 samples round to 1 (not 2 as Python's `round` would), 0.375 to 0, 3 to 3, 0.5 to 0, 2.5 to 2 -/
+example : delaySamples 48000 (1/32) = 1 ∧ delaySamples 48000 (1/128) = 0 ∧ delaySamples 48000 (1/16) = 3
+    ∧ delaySamples 8000 (1/16) = 0 ∧ delaySamples 8000 (5/16) = 2 := by decide +kernel
+/-- the model evaluates on it: blocks of 2, 0, 1 and 2 frames (same numbers as the real code, see the
+harness): the unit gain, the single-input mix and the silent leaf are simplified away -/
+example : isOk (runSpec 48000 3 exSpec [[[1, 2, 3], [4, 5, 6]], [], [[7, 8, 9]], [[1, 1, 1], [2, 2, 2]]])
+    [[6, 33/2], [], [30], [63/2, 87/2]] = true := by decide +kernel
+example : (match simplify exSpec with
+    | .gain (.mix [.matrix (.direct 0) (some _) (some _), .matrix (.direct 1) none (some _),
+                   .matrix (.direct 2) (some _) (some _)]) _ => true
+    | _ => false) = true := by decide +kernel
+/-- a delay that rounds below zero is rejected at the first `process` call, even an empty one … -/
+example : isErr (runSpec 48000 3 (.matrix (.direct 0) none (some (-1/64)) : Spec Rat) [[]]) .negDelay = true := by
+  decide +kernel
+/-- … but not if nothing is processed, not if simplification removes the node, and −0.375 samples round to 0 -/
+example : isOk (runSpec 48000 3 (.matrix (.direct 0) none (some (-1/64)) : Spec Rat) []) [] = true := by
+  decide +kernel
+example : isOk (runSpec 48000 3 (.matrix .silent none (some (-1/64)) : Spec Rat) [[[1, 2, 3]]]) [[0]] = true := by
+  decide +kernel
+example : isOk (runSpec 48000 3 (.matrix (.direct 0) none (some (-1/128)) : Spec Rat) [[[1, 2, 3]]]) [[1]] = true := by
+  decide +kernel
+/-- index 3 of 3 channels raises `IndexError`; −1 is numpy's last column -/
+example : isErr (runSpec 48000 3 (.direct 3 : Spec Rat) [[[1, 2, 3]]]) .index = true := by decide +kernel
+example : isOk (runSpec 48000 3 (.direct (-1) : Spec Rat) [[[1, 2, 3]]]) [[3]] = true := by decide +kernel
+/-- `_track_spec_processor` on an unsimplified empty mix trips the assertion -/
+example : isErr (runBuilt 48000 3 (.gain (.mix []) 2 : Spec Rat) []) .notSimplified = true := by decide +kernel
+/-- a sample-rate change after the delay exists is rejected -/
+example : isErr (match trackProcessor (.matrix (.direct 0) none (some 0) : Spec Rat) with
+    | .ok p => runR 3 p [(48000, [[1, 2, 3]]), (44100, [[1, 2, 3]])]
+    | .error e => .error e) .sampleRate = true := by decide +kernel
+
+end Examples
+
 end Earverif.TrackSpec
